@@ -516,7 +516,9 @@ fn handle(line: &str) -> Result<String, String> {
         }
         "fmt_trace" => Ok(op_fmt_trace(&unhex(rest)?)),
         "subtype" | "subtype_ne" | "unify" | "unify_all" | "tydisplay" => op_types(op, rest),
-        "lsp_o2p" | "lsp_lc2o" | "lsp_whole" => crate::lsp::verif_lsp_op(op, rest),
+        "lsp_o2p" | "lsp_lc2o" | "lsp_whole" | "lsp_range" => {
+            crate::lsp::verif_lsp_op(op, rest)
+        }
         "astq" | "refactor" | "fix" => crate::verif_refactor::op(op, rest),
         _ => Err(format!("unknown op {op}")),
     }
